@@ -433,12 +433,14 @@ func classify(r reconcile.Result, err error) string {
 	switch {
 	case err != nil:
 		return "RErr"
-	case r.Requeue: //nolint:staticcheck
-		return "RRequeue"
 	case r.RequeueAfter == time.Second:
 		return "RAfter1"
 	case r.RequeueAfter == 5*time.Second:
 		return "RAfter5"
+	case r.RequeueAfter > 0: // liveness timeouts of the launch path (result.Min also sets Requeue): not modelled
+		return "ROk"
+	case r.Requeue: //nolint:staticcheck
+		return "RRequeue"
 	}
 	return "ROk"
 }
